@@ -70,6 +70,10 @@ def build_body(body: Dict[str, Any], req_wire: Dict[str, Any], is_sse: bool) -> 
         n = body.get("n", 2)
         msgs = [{"jsonrpc": "2.0", "method": "notifications/message", "params": {"level": "info", "data": i}} for i in range(n)]
         msgs.append({"jsonrpc": "2.0", "id": rid, "result": payload})
+        # ... and what the server still had to say after the response, in the same body (late log / progress messages,
+        # a list_changed notification, a request of its own)
+        for i in range(body.get("after", 0)):
+            msgs.append({"jsonrpc": "2.0", "method": "notifications/message", "params": {"level": "info", "data": 100 + i}} if i % 3 != 2 else {"jsonrpc": "2.0", "id": f"srv-{i}", "method": "ping"})
     else:
         msgs = []
     if kind in ("nonutf8-latin1", "nonutf8-overlong") and ("id" not in req_wire or (isinstance(rid, str) and not rid.isascii())):
@@ -407,6 +411,8 @@ def job_matrix(col: Collector, seed: int, tier: str, shard: int, nshards: int) -
                             continue
                         msg = {"kind": "notification"} if mk == "notification" else {"kind": "request", "id": "r-1" if mk == "request-str" else 7}
                         body: Dict[str, Any] = {"kind": bk}
+                        if bk in ("batch", "notifs+response") and i % 2:
+                            body["after"] = 1 + i % 3  # the server goes on talking after the response
                         if enc:
                             body["sse"] = enc
                         beh = {"status": status, "ctype": ct, "body": body, "session": "S1" if i % 3 == 0 else None}
@@ -433,6 +439,8 @@ def behaviour(draw):
     body: Dict[str, Any] = {"kind": draw(st.sampled_from(BODY_KINDS + ["result", "result", "notifs+response"]))}
     if body["kind"] in ("notifs+response", "batch"):
         body["n"] = draw(st.integers(0, 3))
+        if draw(st.booleans()):
+            body["after"] = draw(st.integers(1, 3))
     if draw(st.booleans()):
         body["payload"] = draw(st.dictionaries(st.text(max_size=5), st.one_of(st.text(max_size=8), st.integers(-5, 2**53), st.none(), st.lists(st.text(max_size=3), max_size=2)), max_size=3))
     if ct.startswith("sse") or draw(st.integers(0, 5)) == 0:
@@ -666,6 +674,8 @@ BURST_BEHS: List[Dict[str, Any]] = [
     {"status": 200, "ctype": "sse", "body": {"kind": "empty"}},
     {"status": 200, "ctype": "json", "body": {"kind": "empty"}},
     {"status": 200, "ctype": "sse", "body": {"kind": "notifs+response", "n": 2}},
+    {"status": 200, "ctype": "sse", "body": {"kind": "notifs+response", "n": 1, "after": 3}},
+    {"status": 200, "ctype": "json", "body": {"kind": "batch", "n": 0, "after": 2}},
     {"status": 500, "ctype": "text", "body": {"kind": "nonjson"}},
     {"status": 202, "ctype": "json", "body": {"kind": "empty"}},
     {"status": 200, "exc": "read_timeout"},
